@@ -84,6 +84,17 @@ def prepareFlush (s : KvStore) : KvStore :=
   | none => { s with immutable := some (s.mutable, s.mutEmpty), mutable := Dict.empty, mutEmpty := true }
   | some _ => s
 
+/-- forget an immutable map that `IsEmpty()` -/
+def dropEmpty (s : KvStore) : KvStore :=
+  match s.immutable with
+  | some (_, true) => { s with immutable := none }
+  | _ => s
+
+/-- `PrepareFlush` in either shape: `se` = the test is `immutable == nil || immutable.IsEmpty()`
+(lindb commit a4b424c); otherwise `immutable == nil` (an empty immutable map then stays for ever) -/
+def prepareFlushE (s : KvStore) (se : Bool) : KvStore :=
+  if se then s.dropEmpty.prepareFlush else s.prepareFlush
+
 /-- `Flush` up to `flusher.Close()` (kv family commit). `needFlush` is false for a nil or an EMPTY
 immutable map: then nothing happens — and an empty immutable map stays where it is. -/
 def commit (s : KvStore) : KvStore :=
@@ -304,6 +315,14 @@ def prepareFlush (s : SchemaStore) : SchemaStore :=
   | none => { s with frz := some (s.cur, s.curEmpty), cur := fun _ => none, curEmpty := true }
   | some _ => s
 
+def dropEmpty (s : SchemaStore) : SchemaStore :=
+  match s.frz with
+  | some (_, true) => { s with frz := none }
+  | _ => s
+
+def prepareFlushE (s : SchemaStore) (se : Bool) : SchemaStore :=
+  if se then s.dropEmpty.prepareFlush else s.prepareFlush
+
 /-- `Flush` up to `flusher.Close()`: every schema of the immutable map that needs it is written -/
 def commit (s : SchemaStore) : SchemaStore :=
   match s.frz with
@@ -401,6 +420,12 @@ def prepareFlush (l : Layers α) : Layers α :=
   match l.frz with
   | none => { l with frz := some l.cur, cur := [] }
   | some _ => l
+def dropEmpty (l : Layers α) : Layers α :=
+  match l.frz with
+  | some [] => { l with frz := none }
+  | _ => l
+def prepareFlushE (l : Layers α) (se : Bool) : Layers α :=
+  if se then l.dropEmpty.prepareFlush else l.prepareFlush
 /-- `flush`: nothing happens for a nil or empty immutable map -/
 def flush (l : Layers α) : Layers α :=
   match l.frz with
@@ -438,6 +463,14 @@ def prepareFlush (sh : Shard) : Shard :=
   { sh with minv := sh.minv.prepareFlush, fwd := sh.fwd.prepareFlush, inv := sh.inv.prepareFlush,
             series := sh.series.prepareFlush }
 
+def dropEmpty (sh : Shard) : Shard :=
+  { sh with minv := sh.minv.dropEmpty, fwd := sh.fwd.dropEmpty, inv := sh.inv.dropEmpty,
+            series := sh.series.dropEmpty }
+
+/-- `metricIndexDatabase.PrepareFlush` in either shape (see `KvStore.prepareFlushE`) -/
+def prepareFlushE (sh : Shard) (se : Bool) : Shard :=
+  if se then sh.dropEmpty.prepareFlush else sh.prepareFlush
+
 /-- step `i` of `metricIndexDatabase.Flush` (source order) -/
 def flushStep (sh : Shard) : Nat → Shard
   | 0 => { sh with minv := sh.minv.flush }
@@ -462,6 +495,8 @@ structure Cfg where
   seriesLimitFirst : Bool := false
   /-- repair: the schema flush marks persisted only what it wrote -/
   schemaMarkWritten : Bool := false
+  /-- `PrepareFlush` also swaps when the immutable map is empty (lindb commit a4b424c) -/
+  prepareSwapsEmpty : Bool := false
   deriving DecidableEq, Repr
 
 structure Node where
@@ -560,10 +595,18 @@ def genSeries (c : Cfg) (nd : Node) (shard m ts : Nat) (tags : List (Nat × Nat)
                             minv := sh.minv.put (m, sid) }
         (buildInverted c shard m sid (nd.setShard shard sh) tags, .id sid)
 
-/-- `metricMetaDatabase.PrepareFlush` -/
+/-- `metricMetaDatabase.PrepareFlush` (old shape) -/
 def metaPrepare (nd : Node) : Node :=
   { nd with ns := nd.ns.prepareFlush, metric := nd.metric.prepareFlush,
             tagValue := nd.tagValue.prepareFlush, schema := nd.schema.prepareFlush }
+
+def metaDropEmpty (nd : Node) : Node :=
+  { nd with ns := nd.ns.dropEmpty, metric := nd.metric.dropEmpty,
+            tagValue := nd.tagValue.dropEmpty, schema := nd.schema.dropEmpty }
+
+/-- `metricMetaDatabase.PrepareFlush` in either shape -/
+def metaPrepareE (nd : Node) (se : Bool) : Node :=
+  if se then nd.metaDropEmpty.metaPrepare else nd.metaPrepare
 
 /-- step `i` of `metricMetaDatabase.Flush` (source order): Sync, ns, metric, schema, tag values -/
 def metaFlushStep (nd : Node) : Nat → Node
@@ -590,6 +633,11 @@ def metaFlushFieldInWindow (c : Cfg) (nd : Node) (m f : Nat) : Node × GenOut :=
   (({ r.1 with schema := sch } : Node).metaFlushStep 4, r.2)
 
 def indexPrepare (nd : Node) (shard : Nat) : Node := nd.setShard shard (nd.shards shard).prepareFlush
+
+def indexDropEmpty (nd : Node) (shard : Nat) : Node := nd.setShard shard (nd.shards shard).dropEmpty
+
+def indexPrepareE (nd : Node) (shard : Nat) (se : Bool) : Node :=
+  if se then (nd.indexDropEmpty shard).indexPrepare shard else nd.indexPrepare shard
 
 def indexFlushPrefix (nd : Node) (shard k : Nat) : Node :=
   nd.setShard shard ((List.range k).foldl Shard.flushStep (nd.shards shard))
@@ -629,9 +677,9 @@ def step (c : Cfg) (nd : Node) : Op → Node × Option GenOut
   | .tagKey m k => let r := nd.genTagKeyID c m k; (r.1, some r.2)
   | .tagValue tk v => let r := nd.genTagValueID c tk v; (r.1, some r.2)
   | .series sh m ts tags => let r := nd.genSeries c sh m ts tags; (r.1, some r.2)
-  | .metaPrepare => (nd.metaPrepare, none)
+  | .metaPrepare => (nd.metaPrepareE c.prepareSwapsEmpty, none)
   | .metaFlush => (nd.metaFlush, none)
-  | .indexPrepare sh => (nd.indexPrepare sh, none)
+  | .indexPrepare sh => (nd.indexPrepareE sh c.prepareSwapsEmpty, none)
   | .indexFlush sh => (nd.indexFlush sh, none)
   | .reopen => (nd.recover, none)
   | .metaFlushCrash k => ((nd.metaFlushPrefix k).recover, none)
